@@ -245,7 +245,8 @@ def check_exit(ctx, case, path, model_exit, verdict, tags):
 
 
 # ----------------------------------------------------------------------------- JSON cases
-def json_case(ctx, case, base_doc, muts, doc=None, text=None, is_base=False, tags=(), with_exit=False):
+def json_case(ctx, case, base_doc, muts, doc=None, text=None, is_base=False, tags=(), with_exit=False,
+              written_from=None):
     """one JSON case: (base_doc, muts) -> mutated doc written to a file, validated, loaded, judged"""
     if doc is None:
         doc = base_doc
@@ -261,8 +262,12 @@ def json_case(ctx, case, base_doc, muts, doc=None, text=None, is_base=False, tag
     if muts:
         req["base"] = enc(base_doc)
         req["muts"] = [enc_mut(m) for m in muts]
+    if written_from is not None:
+        # the table the file was written from: Lean checks that the file IS `docOf` of that table
+        req["written_from"] = {"obs": written_from["obs"], "samp": written_from["samp"],
+                               "rows": core.grid_frac(written_from["rows"])}
     r = ctx.driver.ask(req)
-    cls = "+".join(m["m"] for m in muts) if muts else "written"
+    cls = "+".join(m["m"] for m in muts) if muts else ("written" if is_base else "corpus-doc")
     if len(muts) <= 1:
         ctx.count("json:%s->%s" % (cls, verdict))
     else:
@@ -584,7 +589,7 @@ def fixed_corpus(ctx):
             "corpus": "all-zero table (fixed e8ba4fdc)"}
     ctx.case(case)
     json_case(ctx, case, json.loads(text), [], text=text, is_base=True, tags=("corpus", "all-zero-data"),
-              with_exit=True)
+              with_exit=True, written_from=ALL_ZERO_SPEC)
 
 
 # ----------------------------------------------------------------------------- run
@@ -623,7 +628,7 @@ def _run(ctx):
         text = written_json(spec, route)
         case = {"fmt": "json", "spec": spec, "route": route, "muts": []}
         ctx.case({"fmt": "json", "spec": core.spec_obs(spec), "route": route}, nontrivial=True)
-        json_case(ctx, case, json.loads(text), [], text=text, is_base=True, with_exit=(i < 10))
+        json_case(ctx, case, json.loads(text), [], text=text, is_base=True, with_exit=(i < 10), written_from=spec)
 
     # ---- JSON fault enumeration
     n_bases = 5 if quick else 12
